@@ -83,10 +83,11 @@ func (b *ByteBuffer) Commit(n int) {
 		return
 	}
 
-	b.ri += n
-	if b.ri > b.wi {
-		b.ri = b.wi
+	// Clamp before adding: b.ri + n overflows for very large n.
+	if max := b.wi - b.ri; n > max {
+		n = max
 	}
+	b.ri += n
 }
 
 // Prefault the buffer, forcing physical memory allocation.
@@ -358,9 +359,9 @@ func (b *ByteBuffer) PrepareRead(n int) (err error) {
 // in the callback and the unused bytes will be used in future claims.
 func (b *ByteBuffer) Claim(fn func(b []byte) int) {
 	n := fn(b.data[b.wi:cap(b.data)])
-	if wi := b.wi + n; n >= 0 && wi <= cap(b.data) {
-		// wi <= cap(b.data) because the invariant is that b.wi = min(len(b.data), cap(b.data)) after each call
-		b.wi = wi
+	// Compared without adding to b.wi, which overflows for very large n.
+	if n >= 0 && n <= cap(b.data)-b.wi {
+		b.wi += n
 		b.data = b.data[:b.wi]
 	}
 }
@@ -370,7 +371,9 @@ func (b *ByteBuffer) Claim(fn func(b []byte) int) {
 // Callers do not have the option to write less than they claim. The write area
 // will grow by `n`.
 func (b *ByteBuffer) ClaimFixed(n int) (claimed []byte) {
-	if wi := b.wi + n; n >= 0 && wi <= cap(b.data) {
+	// Compared without adding to b.wi, which overflows for very large n.
+	if n >= 0 && n <= cap(b.data)-b.wi {
+		wi := b.wi + n
 		claimed = b.data[b.wi:wi]
 		b.wi = wi
 		b.data = b.data[:b.wi]
